@@ -40,6 +40,12 @@ def device_forms():
           ("POKE65498", "POKE 65498 , {n}")]
     f += [("BUTTON", "Z = BUTTON ( {n} )"), ("JOYSTK", "Z = JOYSTK ( {n} )"), ("POINT", "Z = POINT ( {n} , {n} )"),
           ("INKEY", "Z$ = INKEY$"), ("BUTTONe", "Z = BUTTON ( {n} ) + 1"), ("POINTe", "Z = 2 * POINT ( {n} , {n} )")]
+    # the same device function with the same operand text more than once in a statement: every occurrence is a reading
+    # of the device of its own (the key pressed, the stick position at that moment), in the position it was written
+    f += [("INKEYx2", "Z$ = INKEY$ + INKEY$"), ("INKEYPRINTx2", "PRINT INKEY$ ; INKEY$"), ("BUTTONx2", "Z = BUTTON ( 0 ) + BUTTON ( 0 )"),
+          ("JOYSTKx2", "Z = JOYSTK ( A ) * JOYSTK ( A )"), ("POINTx2", "HSET ( POINT ( A , B ) , POINT ( A , B ) , 1 )"),
+          ("JOYSTKx4", "HLINE ( JOYSTK ( 0 ) , JOYSTK ( 1 ) ) - ( JOYSTK ( 0 ) , JOYSTK ( 1 ) ) , PSET"),
+          ("BUTTONSOUNDx2", "SOUND BUTTON ( 1 ) + 1 , BUTTON ( 1 ) + 1"), ("INKEYATx2", "PRINT @ 5 , INKEY$ ; INKEY$ ;")]
     return f
 
 
@@ -149,6 +155,13 @@ def statement_coverage():
         # repeated names in one DIM, DIM of scalars beside arrays
         "10 DIM A ( &H0 )", "10 DIM A ( 0 )", "10 A = &H0", "10 POKE &HFF9A , &H00", "10 DATA &H0 , &H00",
         "10 DIM A$ , B , A$", "10 DIM A , A", '10 DIM A$ , B$ ( 2 ) : A$ = "X" : B$ ( 1 ) = A$',
+        # assignments whose whole right-hand side becomes a procedure call: with and without LET, scalar and element targets
+    ] + [f"10 {let}{tgt} = {fn}" for let in ("", "LET ") for tgt, fn in (("X", "INT ( Y )"), ("X", "VAL ( A$ )"), ("X", "INSTR ( 1 , A$ , B$ )"), ("X", "BUTTON ( 0 )"),
+                                                                       ("X", "JOYSTK ( 0 )"), ("X", "POINT ( 1 , 2 )"), ("A$", "INKEY$"), ("A$", "STR$ ( X )"), ("A$", "HEX$ ( X )"),
+                                                                       ("A$", "STRING$ ( 3 , B$ )"), ("A ( 2 )", "INT ( Y )"), ("A ( INT ( X ) )", "INT ( Y )"), ("A$ ( 1 )", "STR$ ( X )"),
+                                                                       ("X", "INT ( Y ) + 1"), ("A$", 'STR$ ( X ) + "!"'))] + [
+        # lines without a statement
+        "10 :", "10 : :", "10 GOTO 20\n20 :", "10 GOTO 20\n20", "10 A = 1\n20\n30 B = 2",
     ]
     return progs
 
